@@ -33,7 +33,8 @@ RULE = ("seeded inputs: real symmetric matrices of size 2-5 (Erdos-Renyi adjacen
         "not 0/1/identity (e.g. gradient norm > 1e-6, probability in (1e-12, 1), squeezing != 0); distinct = "
         "(function family, rounded inputs).")
 ASSUMPTIONS = [
-    "A is real symmetric (documented: adjacency matrix); A(theta) has spectral norm < 1",
+    "A is real symmetric (documented: adjacency matrix); A(theta) has spectral norm < 1 and its non-zero entries are >= 1e-6 "
+    "(The Walrus, third party, treats entries below 1e-8 as zero)",
     "threshold-mode gradients are approximate by design and are observed, not judged",
     "NumPy/SciPy linear algebra trusted; physical constants (h, c, k, m_u) are written out in the harness (CODATA 2018)",
     "Franck-Condon oracle: grid integration for 1 and 2 modes; larger systems are compared at the level of the "
@@ -170,6 +171,8 @@ def gen_vgbs_case(rng, thr=None):
         theta = theta * rng.choice([-0.2, 1], d)
     if rng.random() < 0.1:
         theta = np.zeros(d)
+    elif rng.random() < 0.2:
+        theta = rng.uniform(2.5, 6.5, d)  # strongly damped model: sample probabilities down to ~1e-15
     return {"kind": "vgbs", "A": A.tolist(), "cls": cls, "threshold": thr, "n_mean": n_mean, "embedding": emb,
             "theta": theta.tolist(), "n_data": int(rng.integers(1, 7)), "hseed": int(rng.integers(2 ** 31)),
             "sample_calls": bool(rng.random() < 0.25)}
@@ -372,6 +375,15 @@ def run_vgbs(case, rep, V):
         if np.max(np.abs(np.linalg.eigvalsh(Ath_ref))) > 0.97:
             rep.skip("A(theta) outside the GBS domain")
             return
+    # The Walrus treats matrix entries below 1e-8 as exact zeros (np.allclose defaults in its hafnian front end), so
+    # a model whose non-zero couplings are that small is outside the numerically meaningful domain: back off
+    for _ in range(60):
+        nz = np.abs(Ath_ref[np.abs(A0) > 0])
+        if len(nz) == 0 or nz.min() >= 1e-6:
+            break
+        theta = theta * 0.85
+        w_ref = np.exp(-F @ theta)
+        Ath_ref = np.diag(np.sqrt(w_ref)) @ A0 @ np.diag(np.sqrt(w_ref))
     mode = "threshold" if thr else "pnr"
 
     # ---- rescaling: the state of A_init has the requested mean
@@ -447,6 +459,7 @@ def run_vgbs(case, rep, V):
         nmax = 6 if n <= 3 else 4
         PN = rp.total_photon_dist(g.mu, g.V, nmax)
         worst = 0.0
+        worst_rel = 0.0
         probs = {}
         for N in range(nmax + 1):
             s = 0.0
@@ -454,17 +467,35 @@ def run_vgbs(case, rep, V):
                 p = float(vg0.prob_sample(theta, np.array(pat)))
                 s += p
                 if N <= 4:
-                    pr = rp.fock_prob(g.mu, g.V, pat)
+                    # two independent routes: the textbook pure-state formula on A itself (keeps structural zeros
+                    # exact, needed when all probabilities are tiny) and the general Gaussian-state formula on the
+                    # RefGauss state; they must agree with each other before the library is judged
+                    pr = rp.pure_gbs_prob(Ath_ref, pat)
+                    pr2 = rp.fock_prob(g.mu, g.V, pat)
+                    if abs(pr - pr2) > 1e-11:
+                        rep.error("oracle-disagreement(pure formula vs Gaussian formula)", RuntimeError("%g %g" % (pr, pr2)))
                     probs[pat] = pr
                     worst = max(worst, abs(p - pr))
+                    if pr > 1e-300 and p > 0:
+                        worst_rel = max(worst_rel, abs(np.log(p) - np.log(pr)) if pr > 1e-6 * PN[N] else 0.0)
+                    elif (pr > 1e-6 * PN[N]) != (p > 1e-6 * PN[N]):
+                        worst_rel = np.inf
             if abs(s - PN[N]) > 1e-8:
                 V("prob_photon_sample", "not-normalised",
                   "probabilities of all patterns with %d photons add up to %.10g, the state has P(N=%d) = %.10g"
                   % (N, s, N, PN[N]))
         rep.dev("prob_photon_sample", worst, 1e-8)
-        if worst > 1e-8:
-            V("prob_photon_sample", "not-the-state-probability", "probability differs from the state's by %.3g" % worst)
-        cand = [p for p, v in probs.items() if v > 1e-7]
+        rep.dev("prob_photon_sample(relative, log)", worst_rel if np.isfinite(worst_rel) else 1e9, 1e-6)
+        if worst > 1e-8 or worst_rel > 1e-6:
+            V("prob_photon_sample", "not-the-state-probability", "probability differs from the state's by %.3g (absolute) / "
+              "%.3g (log ratio)" % (worst, worst_rel))
+        # data must have non-zero probability; "non-zero" is judged relative to the most likely pattern with the same
+        # photon number, so that strongly damped models (all probabilities tiny) are exercised too
+        top = {}
+        for pat, v in probs.items():
+            top[sum(pat)] = max(top.get(sum(pat), 0.0), v)
+        # (odd totals are impossible for a lossless pure state: the reference returns rounding noise there)
+        cand = [pat for pat, v in probs.items() if sum(pat) % 2 == 0 and v > 1e-6 * top[sum(pat)] and v > 1e-40]
     if not cand:
         rep.skip("no pattern with positive probability")
         return
